@@ -391,7 +391,7 @@ theorem infer_bool_roundtrip (e : SEnv) (be : BEnv) (hpy : be.py = e.py) (s : St
     simp only [deOne, hpy, hv]
     decide
 
-example : (some PyT.int, Tables.explicitTypes.head!.2) ∈ explicitTypes := by decide
+example : (some PyT.int, Tables.explicitTypesDt.head!.2) ∈ explicitTypes := by decide
 
 /-! ### the generated union reads leniently (finding C13-union-member-order) -/
 
